@@ -40,6 +40,8 @@ REQUIRED_MONITORS = ['boundary:PLSSDesc', 'boundary:find_twprge',
                      'hostile-neighbour', 'ocr', 'ocr:no-digit-left', 'pair',
                      'channel:config-object-vs-later-master', 'segment-mode',
                      'channel:master-after-creation',
+                     'channel:config-not-from-text',
+                     'channel:keyword-then-plain',
                      'ocr-on-in-default-channels', 'boundary:preprocess']
 EXHAUSTIVE_SUBSPACES = {
     'thorough': ["compact spelling, t 1..199 x r 1..130, directions rotating"],
@@ -158,6 +160,42 @@ def check(case, ctx, rep, pytrs):
                 MC.default_ew = 'e' if dew == 'w' else 'w'
                 d = pytrs.PLSSDesc(txt, config=cfg)
                 ctx.hit('channel:config-object-vs-later-master')
+            elif channel == 'config-not-from-text':
+                # a Config object that never was a text: built from keyword
+                # arguments / a dict / by assigning attributes, handed over
+                # at creation or assigned to a waiting description
+                how = (t + 2 * r) % 3
+                kw = {'default_ns': dns, 'default_ew': dew}
+                if seg:
+                    kw['segment'] = True
+                if ocr:
+                    kw['ocr_scrub'] = True
+                if how == 0:
+                    c = pytrs.Config.from_kwargs(**kw)
+                elif how == 1:
+                    c = pytrs.Config.from_dict(kw)
+                else:
+                    c = pytrs.Config()
+                    for k_, v_ in kw.items():
+                        setattr(c, k_, v_)
+                if (t + r) % 2:
+                    d = pytrs.PLSSDesc(txt, config=c)
+                else:
+                    d = pytrs.PLSSDesc(txt, wait_to_parse=True)
+                    d.config = c
+                    d.parse()
+                ctx.hit('channel:config-not-from-text')
+            elif channel == 'keyword-then-plain':
+                # a keyword applies to the parse it is given to: the plain
+                # parse that follows reads the configured defaults again
+                odn = 's' if dns == 'n' else 'n'
+                ode = 'e' if dew == 'w' else 'w'
+                d = pytrs.PLSSDesc(txt, config=cfg(f"{dns},{dew}"))
+                d.parse(default_ns=odn, default_ew=ode)
+                if (t + r) % 2:
+                    d.preprocess()
+                d.parse()
+                ctx.hit('channel:keyword-then-plain')
             elif channel == 'mixed':
                 # one axis from the config string, the other as keyword
                 d = pytrs.PLSSDesc(txt, config=cfg(dns), wait_to_parse=True)
@@ -453,7 +491,9 @@ def gen_case(rng):
                                                  'keyword-over-config',
                                                  'mixed', 'mixed2',
                                                  'master-after-creation',
-                                                 'config-object-vs-later-master']),
+                                                 'config-object-vs-later-master',
+                                                 'config-not-from-text',
+                                                 'keyword-then-plain']),
             'text': txt, 'hostile': hostile,
             'segment': rng.random() < 0.25 and not hostile,
             'ocr_on': rng.random() < 0.2}
